@@ -24,12 +24,16 @@ def one(sid):
         rc, o = sh("git apply %s" % pf, cwd=scratch)
         if rc != 0:
             # written against an older /repo commit whose lines were since repaired: evaluate it on that commit
-            base = meta.get("base_commit") or OLD_BASE
-            sh("git checkout -q --detach %s" % base, cwd=scratch)
-            rc, o = sh("git apply %s" % os.path.join(d, "patch.diff"), cwd=scratch)
-            if rc != 0:
+            ok_base = None
+            for base in ["d7a156f", meta.get("base_commit") or OLD_BASE]:
+                sh("git checkout -q --detach %s" % base, cwd=scratch)
+                rc, o = sh("git apply %s" % os.path.join(d, "patch.diff"), cwd=scratch)
+                if rc == 0:
+                    ok_base = base
+                    break
+            if ok_base is None:
                 return sid, "patch no longer applies", {}
-            meta["evaluated_on"] = base
+            meta["evaluated_on"] = ok_base
         env = dict(os.environ, NFSA_REPO=scratch, NFSA_EVIDENCE_DIR=ev)
         fired = {}
         for p in props:
